@@ -479,7 +479,7 @@ func mutateBytes(s string, r *rand.Rand) string {
 }
 
 func checkC01(c *core.Ctx) {
-	c.Rule = "inputs are (a) every byte string up to the bound over 17 bytes chosen to hit truncated escapes, stray BOM prefixes, lone continuation bytes, CR before EOF, unterminated (block) strings; (b) seeded byte-level mutations (truncate at any offset, bit flip, delete, splice, insert of partial UTF-8 / BOM / quote / escape material) of the repository's own test inputs and of generated documents; (c) size-parametrised adversarial families to 64 KiB without a limit. Every input runs through the lexer loop and the six parser entry points in a child process (a crash or hang is attributed to its input); outcomes, error positions and hook-H1 work counters are validated by Total_Trace. Non-trivial = inputs on which at least one entry point returns a located syntax error or a document; distinct by bytes"
+	c.Rule = "inputs are (a) every byte string up to the bound over 17 bytes chosen to hit truncated escapes, stray BOM prefixes, lone continuation bytes, CR before EOF, unterminated (block) strings; (b) seeded byte-level mutations (truncate at any offset, bit flip, delete, splice, insert of partial UTF-8 / BOM / quote / escape material) of the repository's own test inputs and of generated documents; (c) size-parametrised adversarial families to 64 KiB without a limit. Every input runs through the lexer loop and the six parser entry points in a child process (a crash or hang is attributed to its input); outcomes, error positions and hook-H1 work counters are validated by Total_Trace. Non-trivial = inputs of at least two tokens before the end on which at least one entry point returns a located syntax error or a document; distinct by bytes"
 	c.Assumptions = []string{
 		"termination and absence of panics / fatal errors are observed on the Go runtime (child process, 20 s per case inactivity watchdog, re-run not needed because a hang is deterministic here); the specification decides well-formedness of what was returned",
 		"the polynomial time bound is checked on the deterministic counters of hook H1 (lexer calls, next() calls) against the token count, not on seconds",
@@ -602,7 +602,9 @@ func checkC01(c *core.Ctx) {
 			tc.N = 1 << 30
 		}
 		for _, o := range tc.Outs {
-			if o.Doc || (o.Err && o.Loc) {
+			// non-trivial: the lexer got past at least two tokens before the outcome (a document, or an error
+			// located after the first token): one-token rejections are the trivial bulk of the exhaustive part
+			if tc.Lex.Toks >= 3 && (o.Doc || (o.Err && o.Loc)) {
 				nontrivial++
 				break
 			}
